@@ -146,7 +146,7 @@ func c15Run(c *Ctx) {
 		c15Judge(c, cs)
 	}
 	// 2. non-finite values and results of every bitwise operator
-	special := []string{"(10 ** 400)", "(-(10 ** 400))", "((10 ** 400) - (10 ** 400))", "(7 & 3)", "(5 | 8)", "(5 ^ 1)", "(1 << 20)", "(1 << 40)", "(1 << 62)", "(-8 >> 1)", "(~0)", "(~5)", "(1 << 19)", "(1 << 63)", "(3 ** 4)", "(2 ** 0.5)", "(10 / 4)", "(7 % 3)", "(-7 % 3)", BI("len", "[1, 2, 3]"), BI("round", "2.5"), BI("abs", "-0.25"), BI("sqrt", "2"), BI("max", "1", "1000000")}
+	special := []string{"(10 ** 400)", "(-(10 ** 400))", "((10 ** 400) - (10 ** 400))", "(7 & 3)", "(5 | 8)", "(5 ^ 1)", "(1 << 20)", "(1 << 40)", "(1 << 62)", "(-8 >> 1)", "(~0)", "(~5)", "(1 << 19)", "(1 << 63)", "(8388608 >> 2)", "(4000000 >> 0)", "(-8388608 >> 2)", "(9007199254740994 >> 0)", "(1048576 | 1)", "(3000000 & 3000000)", "(2000000 ^ 1)", "(~(-2000001))", "(~2000000)", "(1000000 << 0)", "(999999 | 0)", "(-1000000 | 0)", "(1000000 >> 0)", "(3 ** 4)", "(2 ** 0.5)", "(10 / 4)", "(7 % 3)", "(-7 % 3)", BI("len", "[1, 2, 3]"), BI("round", "2.5"), BI("abs", "-0.25"), BI("sqrt", "2"), BI("max", "1", "1000000")}
 	{
 		var lines []string
 		for j, e := range special {
